@@ -59,7 +59,11 @@ fn cli_styles() -> clap::builder::Styles {
 /// Returns true if a primary location of the report corresponds to a file
 /// specified on the command line by the user.
 fn filter_by_file(report: &Report, user_inputs: &HashSet<FileID>) -> bool {
-    report.primary_file_ids().iter().any(|file_id| user_inputs.contains(file_id))
+    // A report without a primary location (a file that could not be opened, an
+    // unsupported compiler version, multiple main components) is not located
+    // in an included file and must not be dropped.
+    report.primary_file_ids().is_empty()
+        || report.primary_file_ids().iter().any(|file_id| user_inputs.contains(file_id))
 }
 
 /// Returns true if the report level is greater than or equal to the given
